@@ -129,6 +129,9 @@ def cases(seed, tier):
     for i in range(n_uf):
         out.append({"gen": "uf_random", "kind": kinds[i % 5], "len": rng.randrange(1, maxlen + 1),
                     "seed": rng.randrange(2 ** 31), "init": rng.random() < 0.3})
+    for i in range(n_uf // 6):
+        out.append({"gen": "uf_quiet", "kind": kinds[i % 5], "n": [8, 16, 13, 32, 5][i % 5], "shape": ["tournament", "random"][i % 2],
+                    "first": ["components", "component_mapping", "roots", "component"][(i // 2) % 4], "seed": rng.randrange(2 ** 31)})
     for i in range(n_pq):
         out.append({"gen": "pq_random", "len": rng.randrange(1, maxlen + 1), "seed": rng.randrange(2 ** 31),
                     "prio": ["int", "float", "ties", "inf", "mixed"][i % 5]})
@@ -235,6 +238,42 @@ def _uf_views_check(ctx, uf, model, opname):
         ok, c = ctx.call("component", uf.component, e, monitor="uf_model")
         ctx.check(_norm_set(c) == model.block[e], "uf_model", "component", "wrong_block",
                   "component(x) is not x's block", x=e, got=sorted(map(repr, _norm_set(c))), want=sorted(map(repr, model.block[e])), after=opname)
+
+
+def _run_uf_quiet(ctx, pool, ops, first_view):
+    """A history in which NOTHING is queried while the unions are performed (queries compress paths and would hide a view that relies on an
+    uncompressed table); the first query afterwards is `first_view`."""
+    from mouette.utils.unionfind import UnionFind
+    model = UFModel()
+    ok, uf = ctx.call("init", UnionFind, monitor="uf_model")
+    for op in ops:
+        args = [pool[i] for i in op[1:]]
+        if op[0] == "add":
+            ctx.call("add", uf.add, *args, monitor="uf_model")
+            model.add(*args)
+        elif op[0] == "union":
+            ctx.call("union", uf.union, *args, monitor="uf_model")
+            model.union(*args)
+    part = model.partition()
+    ctx.obs("uf_model", "quiet_then_" + first_view)
+    if first_view == "components":
+        ok, comps = ctx.call("components", uf.components, monitor="uf_model")
+        got = [_norm_set(c) for c in comps]
+        ctx.check(len(got) == len(part) and set(got) == part, "uf_model", "components", "wrong_partition_when_first_query_after_unions",
+                  "components(), asked first after a series of unions, does not list the partition", n_blocks=len(got), want=len(part))
+    elif first_view == "component_mapping":
+        ok, cm = ctx.call("component_mapping", uf.component_mapping, monitor="uf_model")
+        good = len(cm) == len(model.block) and all(_norm_set(cm[e]) == model.block[e] for e in model.block if e in cm)
+        ctx.check(good, "uf_model", "component_mapping", "wrong_partition_when_first_query_after_unions", "component_mapping(), asked first after a series of unions, is wrong")
+    elif first_view == "roots":
+        ok, r = ctx.call("roots", uf.roots, monitor="uf_model")
+        ctx.check(len(r) == len(part), "uf_model", "roots", "count_mismatch_when_first_query_after_unions", "roots(), asked first after a series of unions, has the wrong size")
+    else:
+        e = next(iter(model.block))
+        ok, c = ctx.call("component", uf.component, e, monitor="uf_model")
+        ctx.check(_norm_set(c) == model.block[e], "uf_model", "component", "wrong_block_when_first_query_after_unions", "component(x), asked first after a series of unions, is wrong")
+    _uf_views_check(ctx, uf, model, "after_quiet")
+    ctx.check(uf.n_comps == len(part), "uf_model", "n_comps", "count_mismatch", "n_comps disagrees with the model partition", got=uf.n_comps, want=len(part))
 
 
 def _run_uf(ctx, pool, ops, rng, init=False, full_every=1, views_every=4):
@@ -412,6 +451,26 @@ def run_case(desc, ctx):
             m = _run_uf(ctx, pool, ops, rng)
             ctx.nontrivial({"k": desc["kind"], "ops": ops})
             ctx.sample({"union_find_history": ops, "elements": pool})
+        elif g == "uf_quiet":
+            n = desc["n"]
+            pool = _domain(desc["kind"], rng, n)
+            ops = [["add", i] for i in rng.sample(range(n), n)] if rng.random() < 0.5 else []
+            if desc["shape"] == "tournament":
+                # merge pairs, then pairs of pairs, ...: deep parent chains with children inserted before their ancestors
+                groups = [[i] for i in range(n)]
+                while len(groups) > 1:
+                    nxt = []
+                    for a, b in zip(groups[0::2], groups[1::2]):
+                        ops.append(["union", b[-1], a[0]] if rng.random() < 0.7 else ["union", a[0], b[-1]])
+                        nxt.append(a + b)
+                    if len(groups) % 2:
+                        nxt.append(groups[-1])
+                    groups = nxt
+            else:
+                for _ in range(2 * n):
+                    ops.append(["union", rng.randrange(n), rng.randrange(n)])
+            _run_uf_quiet(ctx, pool, ops, desc["first"])
+            ctx.nontrivial({"quiet": desc["shape"], "pool": pool, "ops": ops, "first": desc["first"]})
         elif g == "uf_random":
             pool, ops = _gen_uf_ops(rng, desc["kind"], desc["len"])
             m = _run_uf(ctx, pool, ops, rng, init=desc.get("init", False))
